@@ -76,7 +76,10 @@ package state
 //@   ensures len(result) == len(b) + 8 && be64of(result[len(b):]) == v
 //@ extern func encoding/binary.(bigEndian).Uint64
 //@   ensures result == be64of(b)
+// The log model holds for an iterator that cannot leave the prefix: only an upper-bounded
+// iterator is one (Pebble applies the bound only when asked to; the in-memory back-end always does).
 //@ extern func github.com/NethermindEth/juno/db.KeyValueStore.NewIterator
+//@   requires scoped_to_prefix: withUpperBound
 //@   assigns itValid, itPast, itAt, itPrefixLen
 //@   ensures result1 == nil ==> result0 != nil && !itValid && !itPast && itPrefixLen == len(prefix)
 //@ extern func github.com/NethermindEth/juno/db.Iterator.Close
@@ -154,3 +157,51 @@ package state
 //@   requires s != nil && s.state != nil && s.state.db != nil && addr != nil
 //@   ensures present: result == nil ==> contractKnown(*addr) && deployedHeight(*addr) <= s.blockNum
 //@   ensures not_yet: contractKnown(*addr) && deployedHeight(*addr) > s.blockNum ==> result != nil
+
+// ---- the historical view: deployment probe first, then the value as of the view's block -----------
+// storageAsOf / nonceAsOf / classHashAsOf are the values as of a block. The three StateReader
+// look-ups are trusted to return them (key construction and felt decoding around the valueAt
+// kernel above); the view must return exactly that value, for exactly its own block, and must
+// answer "not found" for a contract deployed later.
+//@ ghost func storageAsOf(addr felt.Felt, key felt.Felt, n uint64) felt.Felt
+//@ ghost func nonceAsOf(addr felt.Felt, n uint64) felt.Felt
+//@ ghost func classHashAsOf(addr felt.Felt, n uint64) felt.Felt
+//@ ghost func lastUpdatedAsOf(addr felt.Address, key felt.Felt, n uint64) uint64
+//@ func (*StateReader).ContractStorageAt
+//@   trusted
+//@   ensures result1 == nil ==> result0 == storageAsOf(*addr, *key, blockNum)
+//@ func (*StateReader).ContractNonceAt
+//@   trusted
+//@   ensures result1 == nil ==> result0 == nonceAsOf(*addr, blockNum)
+//@ func (*StateReader).ContractClassHashAt
+//@   trusted
+//@   ensures result1 == nil ==> result0 == classHashAsOf(*addr, blockNum)
+//@ func (*StateReader).ContractStorageLastUpdatedAt
+//@   trusted
+//@   ensures result1 == nil ==> result0 == lastUpdatedAsOf(*addr, *key, blockNum)
+//@ func (*stateHistory).ContractStorage
+//@   props C03
+//@   arith int
+//@   requires s != nil && s.state != nil && s.state.db != nil && addr != nil && key != nil
+//@   ensures value: result1 == nil ==> result0 == storageAsOf(*addr, *key, s.blockNum)
+//@   ensures existed: result1 == nil ==> contractKnown(*addr) && deployedHeight(*addr) <= s.blockNum
+//@   ensures not_yet: contractKnown(*addr) && deployedHeight(*addr) > s.blockNum ==> result1 != nil
+//@ func (*stateHistory).ContractNonce
+//@   props C03
+//@   arith int
+//@   requires s != nil && s.state != nil && s.state.db != nil && addr != nil
+//@   ensures value: result1 == nil ==> result0 == nonceAsOf(*addr, s.blockNum)
+//@   ensures existed: result1 == nil ==> contractKnown(*addr) && deployedHeight(*addr) <= s.blockNum
+//@   ensures not_yet: contractKnown(*addr) && deployedHeight(*addr) > s.blockNum ==> result1 != nil
+//@ func (*stateHistory).ContractClassHash
+//@   props C03
+//@   arith int
+//@   requires s != nil && s.state != nil && s.state.db != nil && addr != nil
+//@   ensures value: result1 == nil ==> result0 == classHashAsOf(*addr, s.blockNum)
+//@   ensures existed: result1 == nil ==> contractKnown(*addr) && deployedHeight(*addr) <= s.blockNum
+//@   ensures not_yet: contractKnown(*addr) && deployedHeight(*addr) > s.blockNum ==> result1 != nil
+//@ func (*stateHistory).ContractStorageLastUpdatedBlock
+//@   props C03
+//@   arith int
+//@   requires s != nil && s.state != nil && s.state.db != nil && addr != nil && key != nil
+//@   ensures value: result1 == nil ==> result0 == lastUpdatedAsOf(*addr, *key, s.blockNum)
